@@ -900,8 +900,7 @@ fn analyze_partial_pattern(
     )?;
 
     // Check if the original value type could be multiple types (for adding type checks)
-    let value_type_sources = extract_field_sources(program, value_type_id);
-    let needs_type_check = value_type_sources.len() > 1;
+    let needs_type_check = variant_count(program, value_type_id) > 1;
 
     // Narrowed type accumulated per matchable variant, reconstructed with field-level precision so
     // a later branch's complement reflects the field check (e.g. `mode: R | A` after `=(mode: W)`).
@@ -1115,7 +1114,7 @@ fn analyze_star_pattern(
 
     // If the value could be one of several variants at runtime, a type check is needed to
     // discriminate the matching variant (and, for a named star, to enforce the name).
-    let needs_type_check = all_sources.len() > 1;
+    let needs_type_check = variant_count(program, value_type_id) > 1;
 
     // Create a binding set for each matching field source
     let mut binding_sets = vec![];
@@ -1344,6 +1343,19 @@ fn extract_field_sources(program: &Program, type_id: usize) -> Vec<FieldSource> 
             .flat_map(|&tid| extract_field_sources(program, tid))
             .collect(),
         _ => vec![],
+    }
+}
+
+/// Number of variants a value of this type can be at runtime. Unlike `extract_field_sources`
+/// this also counts the variants that carry no fields (integers, binaries, functions, ...), which
+/// a field-extracting pattern must still be discriminated from.
+fn variant_count(program: &Program, type_id: usize) -> usize {
+    match program.lookup_type(type_id) {
+        Some(Type::Union(type_ids)) => type_ids
+            .iter()
+            .map(|&tid| variant_count(program, tid))
+            .sum(),
+        _ => 1,
     }
 }
 
